@@ -72,5 +72,26 @@ pub fn run(seed: u64, tier: &str, w: &mut dyn Write) -> usize {
             n += 2;
         }
     }
+    // Keccak commitments (KeccakGoldilocksConfig): prove / verify / public inputs
+    for (k, ci) in [0usize, 3, 6, 8].iter().enumerate() {
+        if tier != "thorough" && k >= 2 { break; }
+        for pi in 0..(per_cfg.min(3)) {
+            let kinds = [7u32, 31, 19][pi % 3];
+            let p = gen_program(&mut r, 10 + 15 * pi, kinds);
+            let (_, pubs) = dsl::eval_native(&p).unwrap();
+            let res = crate::kcfg::build_and_prove_c::<crate::kcfg::KC>(&p, &cfgs[*ci].1);
+            let ok = match &res {
+                Ok((data, proof)) => {
+                    let pis: Vec<u64> = proof.public_inputs.iter().map(|x| x.to_canonical_u64()).collect();
+                    let v = std::panic::catch_unwind(std::panic::AssertUnwindSafe(|| data.verify(proof.clone())));
+                    (matches!(v, Ok(Ok(()))) && pis == pubs) as u64
+                }
+                Err(_) => 0,
+            };
+            let why = match &res { Ok(_) => String::new(), Err(e) => format!(" # keccak {}", e) };
+            writeln!(w, "{}{}", line("c01verdict", &[200 + *ci as u64, pi as u64, kinds as u64, p.ops.len() as u64], &ok.to_string()), why).unwrap();
+            n += 1;
+        }
+    }
     n
 }
